@@ -1,3 +1,486 @@
-/* placeholder, replaced when the mode is implemented */
+/*
+ * m_stats.c - executor mode "stats" (properties C17 and C18).
+ *
+ * The case text is a tiny program over the REAL statistics API of cimba
+ * (cmb_datasummary_*, cmb_wtdsummary_*, cmb_dataset_*, cmb_timeseries_* and, for
+ * the bin contents of a histogram, the library-internal cmi_dataset_histogram_*
+ * helpers declared in src/cmi_dataset.h). There is NO oracle in here: every
+ * accessor result is printed as a C hex float, every text report is captured
+ * with open_memstream() and echoed, and pbt/props/stats_lib.py judges the trace
+ * against exact rational arithmetic.
+ *
+ * Pool lines (append doubles to the value pool P):
+ *   p <hex> <hex> ...
+ *   ppat n a b c m off sc      P += ldexp(((a*i*i + b*i + c) mod m) + off, sc), i = 0..n-1
+ *
+ * Command lines (numbered 0,1,2,... in order of appearance; answer lines carry
+ * the number):  S = summary slot, W = weighted summary slot, D = dataset slot,
+ * T = timeseries slot (all slots exist and are initialised at start)
+ *   sum.add S i n            cmb_datasummary_add(P[i..i+n))
+ *   sum.merge St Sa Sb       cmb_datasummary_merge
+ *   sum.get S | sum.reset S | sum.print S lead
+ *   ws.add W xi wi n e skipz cmb_wtdsummary_add(P[xi+j], ldexp(P[wi+j], e)); skipz=1: the
+ *                            executor itself leaves out the samples with weight 0
+ *   ws.merge Wt Wa Wb | ws.get W | ws.reset W | ws.print W lead
+ *   ds.add D i n e b         cmb_dataset_add(ldexp(P[i+j], e) + b)
+ *   ds.sort D | ds.copy Dt Ds | ds.dump D | ds.median D | ds.fivenum D lead
+ *   ds.hist D nb lo hi       cmb_dataset_histogram_print (text)
+ *   ds.hfill D nb lo hi      cmi_dataset_histogram_create/fill/print (bins + text)
+ *   ds.summ D S | ds.acf D n | ds.pacf D n given | ds.reset D
+ *   ts.add T xi ti n         cmb_timeseries_add(P[xi+j], P[ti+j])
+ *   ts.fin T t | ts.sortx T | ts.sortt T | ts.copy Tt Ts | ts.dump T | ts.median T
+ *   ts.fivenum T lead | ts.hist T nb lo hi | ts.summ T W | ts.acf T n | ts.pacf T n given
+ *   ts.dsmedian T | ts.dsfivenum T lead | ts.dshist T nb lo hi   (the parent-class calls
+ *                            the header recommends for unweighted results) | ts.reset T
+ *
+ * Answer lines:  R <cmd#> <name> <fields>   results (hex floats / integers)
+ *                V <cmd#> <x|t|w|a|p|h> <hex> ...   array contents in chunks
+ *                T <cmd#> |<one line of captured report text>
+ *                S <cmd#> <reason>          command skipped: documented precondition unmet
+ */
+#include <float.h>
+#include <inttypes.h>
+#include <math.h>
+#include <stdlib.h>
+#include <string.h>
+
+#include "cmb_dataset.h"
+#include "cmb_datasummary.h"
+#include "cmb_logger.h"
+#include "cmb_timeseries.h"
+#include "cmb_wtdsummary.h"
+#include "cmi_dataset.h"
+
 #include "cimx.h"
-int mode_stats(char *text, FILE *trace) { (void)text; fprintf(trace, "F mode stats not implemented\n"); return CIMX_PARSE_ERROR; }
+
+#define NSUM 16
+#define NWS 16
+#define NDS 6
+#define NTS 6
+#define POOL_MAX (1u << 20)
+#define MAXTOK 4096
+
+static double *pool;
+static size_t npool;
+
+static struct cmb_datasummary sums[NSUM];
+static struct cmb_wtdsummary wss[NWS];
+static struct cmb_dataset *dss[NDS];
+static struct cmb_timeseries *tss[NTS];
+
+static int bad(FILE *trace, const char *why, const char *line)
+{
+    fprintf(trace, "F parse: %s: %s\n", why, line ? line : "");
+    return CIMX_PARSE_ERROR;
+}
+
+static void put_array(FILE *trace, const long idx, const char tag, const uint64_t n, const double *a)
+{
+    for (uint64_t i = 0; i < n; i += 64) {
+        fprintf(trace, "V %ld %c", idx, tag);
+        for (uint64_t j = i; j < n && j < i + 64; j++) {
+            fprintf(trace, " %a", a[j]);
+        }
+        fputc('\n', trace);
+    }
+}
+
+/* echo captured text, one "T idx |line" per line */
+static void put_text(FILE *trace, const long idx, char *buf, const size_t len)
+{
+    size_t start = 0;
+    for (size_t i = 0; i < len; i++) {
+        if (buf[i] == '\n') {
+            buf[i] = '\0';
+            fprintf(trace, "T %ld |%s\n", idx, buf + start);
+            start = i + 1;
+        }
+    }
+    if (start < len) {
+        fprintf(trace, "T %ld |%s\n", idx, buf + start);
+    }
+}
+
+static int slot(const char *s, const int lim)
+{
+    char *end = NULL;
+    const long v = strtol(s, &end, 10);
+    if (end == s || *end != '\0' || v < 0 || v >= lim) {
+        return -1;
+    }
+    return (int)v;
+}
+
+static int range_ok(const int64_t i, const int64_t n)
+{
+    return i >= 0 && n >= 0 && (uint64_t)i + (uint64_t)n <= npool;
+}
+
+static void put_summary(FILE *trace, const long idx, const char *name,
+                        const struct cmb_datasummary *dsp)
+{
+    fprintf(trace, "R %ld %s %" PRIu64 " %a %a %a %a %a %a %a\n", idx, name,
+            cmb_datasummary_count(dsp), cmb_datasummary_min(dsp), cmb_datasummary_max(dsp),
+            cmb_datasummary_mean(dsp), cmb_datasummary_variance(dsp),
+            cmb_datasummary_stddev(dsp), cmb_datasummary_skewness(dsp),
+            cmb_datasummary_kurtosis(dsp));
+}
+
+int mode_stats(char *text, FILE *trace)
+{
+    cmb_logger_flags_off(CMB_LOGGER_INFO | CMB_LOGGER_WARNING);
+    pool = malloc(POOL_MAX * sizeof *pool);
+    npool = 0;
+    for (int i = 0; i < NSUM; i++) cmb_datasummary_initialize(&sums[i]);
+    for (int i = 0; i < NWS; i++) cmb_wtdsummary_initialize(&wss[i]);
+    for (int i = 0; i < NDS; i++) dss[i] = cmb_dataset_create();
+    for (int i = 0; i < NTS; i++) tss[i] = cmb_timeseries_create();
+
+    static char *tok[MAXTOK];
+    char *cursor = text;
+    char *line;
+    long idx = -1;
+    while ((line = cimx_next_line(&cursor)) != NULL) {
+        const int nt = cimx_split(line, tok, MAXTOK);
+        if (nt == 0) continue;
+        const char *c = tok[0];
+
+        /* ---- pool ---- */
+        if (strcmp(c, "p") == 0) {
+            for (int i = 1; i < nt; i++) {
+                if (npool >= POOL_MAX) return bad(trace, "pool overflow", c);
+                pool[npool++] = cimx_dbl(tok[i]);
+            }
+            continue;
+        }
+        if (strcmp(c, "ppat") == 0) {
+            if (nt != 8) return bad(trace, "ppat args", c);
+            const int64_t n = cimx_i64(tok[1]), a = cimx_i64(tok[2]), b = cimx_i64(tok[3]),
+                          cc = cimx_i64(tok[4]), m = cimx_i64(tok[5]), off = cimx_i64(tok[6]),
+                          sc = cimx_i64(tok[7]);
+            if (n < 0 || m <= 0 || npool + (size_t)n > POOL_MAX) return bad(trace, "ppat range", c);
+            for (int64_t i = 0; i < n; i++) {
+                const int64_t v = ((a * i * i + b * i + cc) % m) + off;
+                pool[npool++] = ldexp((double)v, (int)sc);
+            }
+            continue;
+        }
+
+        idx++;
+        /* ---- unweighted summary ---- */
+        if (strcmp(c, "sum.add") == 0 && nt == 4) {
+            const int s = slot(tok[1], NSUM);
+            const int64_t i0 = cimx_i64(tok[2]), n = cimx_i64(tok[3]);
+            if (s < 0 || !range_ok(i0, n)) return bad(trace, "sum.add", c);
+            uint64_t r = cmb_datasummary_count(&sums[s]);
+            for (int64_t j = 0; j < n; j++) r = cmb_datasummary_add(&sums[s], pool[i0 + j]);
+            fprintf(trace, "R %ld sum.add %" PRIu64 "\n", idx, r);
+        }
+        else if (strcmp(c, "sum.merge") == 0 && nt == 4) {
+            const int t = slot(tok[1], NSUM), a = slot(tok[2], NSUM), b = slot(tok[3], NSUM);
+            if (t < 0 || a < 0 || b < 0) return bad(trace, "sum.merge", c);
+            const uint64_t r = cmb_datasummary_merge(&sums[t], &sums[a], &sums[b]);
+            fprintf(trace, "R %ld sum.merge %" PRIu64 "\n", idx, r);
+        }
+        else if (strcmp(c, "sum.get") == 0 && nt == 2) {
+            const int s = slot(tok[1], NSUM);
+            if (s < 0) return bad(trace, "sum.get", c);
+            put_summary(trace, idx, "sum.get", &sums[s]);
+        }
+        else if (strcmp(c, "sum.reset") == 0 && nt == 2) {
+            const int s = slot(tok[1], NSUM);
+            if (s < 0) return bad(trace, "sum.reset", c);
+            cmb_datasummary_reset(&sums[s]);
+            fprintf(trace, "R %ld sum.reset\n", idx);
+        }
+        else if ((strcmp(c, "sum.print") == 0 || strcmp(c, "ws.print") == 0) && nt == 3) {
+            const int isw = (c[0] == 'w');
+            const int s = slot(tok[1], isw ? NWS : NSUM);
+            if (s < 0) return bad(trace, "print", c);
+            char *buf = NULL; size_t len = 0;
+            FILE *ms = open_memstream(&buf, &len);
+            if (isw) cmb_wtdsummary_print(&wss[s], ms, cimx_i64(tok[2]) != 0);
+            else cmb_datasummary_print(&sums[s], ms, cimx_i64(tok[2]) != 0);
+            fclose(ms);
+            fprintf(trace, "R %ld %s\n", idx, c);
+            put_text(trace, idx, buf, len);
+            free(buf);
+        }
+        /* ---- weighted summary ---- */
+        else if (strcmp(c, "ws.add") == 0 && nt == 7) {
+            const int s = slot(tok[1], NWS);
+            const int64_t xi = cimx_i64(tok[2]), wi = cimx_i64(tok[3]), n = cimx_i64(tok[4]);
+            const int e = (int)cimx_i64(tok[5]);
+            const int skipz = (int)cimx_i64(tok[6]);
+            if (s < 0 || !range_ok(xi, n) || !range_ok(wi, n)) return bad(trace, "ws.add", c);
+            uint64_t r = cmb_wtdsummary_count(&wss[s]);
+            for (int64_t j = 0; j < n; j++) {
+                const double w = ldexp(pool[wi + j], e);
+                if (!(w >= 0.0) || !isfinite(w)) return bad(trace, "ws.add weight", c);
+                if (skipz && w == 0.0) continue;
+                r = cmb_wtdsummary_add(&wss[s], pool[xi + j], w);
+            }
+            fprintf(trace, "R %ld ws.add %" PRIu64 "\n", idx, r);
+        }
+        else if (strcmp(c, "ws.merge") == 0 && nt == 4) {
+            const int t = slot(tok[1], NWS), a = slot(tok[2], NWS), b = slot(tok[3], NWS);
+            if (t < 0 || a < 0 || b < 0) return bad(trace, "ws.merge", c);
+            const uint64_t r = cmb_wtdsummary_merge(&wss[t], &wss[a], &wss[b]);
+            fprintf(trace, "R %ld ws.merge %" PRIu64 "\n", idx, r);
+        }
+        else if (strcmp(c, "ws.get") == 0 && nt == 2) {
+            const int s = slot(tok[1], NWS);
+            if (s < 0) return bad(trace, "ws.get", c);
+            const struct cmb_wtdsummary *w = &wss[s];
+            fprintf(trace, "R %ld ws.get %" PRIu64 " %a %a %a %a %a %a %a\n", idx,
+                    cmb_wtdsummary_count(w), cmb_wtdsummary_min(w), cmb_wtdsummary_max(w),
+                    cmb_wtdsummary_mean(w), cmb_wtdsummary_variance(w),
+                    cmb_wtdsummary_stddev(w), cmb_wtdsummary_skewness(w),
+                    cmb_wtdsummary_kurtosis(w));
+        }
+        else if (strcmp(c, "ws.reset") == 0 && nt == 2) {
+            const int s = slot(tok[1], NWS);
+            if (s < 0) return bad(trace, "ws.reset", c);
+            cmb_wtdsummary_reset(&wss[s]);
+            fprintf(trace, "R %ld ws.reset\n", idx);
+        }
+        /* ---- dataset / timeseries: building ---- */
+        else if (strcmp(c, "ds.add") == 0 && nt == 6) {
+            const int d = slot(tok[1], NDS);
+            const int64_t i0 = cimx_i64(tok[2]), n = cimx_i64(tok[3]);
+            const int e = (int)cimx_i64(tok[4]);
+            const double b = cimx_dbl(tok[5]);
+            if (d < 0 || !range_ok(i0, n)) return bad(trace, "ds.add", c);
+            uint64_t r = cmb_dataset_count(dss[d]);
+            for (int64_t j = 0; j < n; j++) {
+                /* volatile: no contraction of the two operations into an fma */
+                volatile double y = ldexp(pool[i0 + j], e);
+                y = y + b;
+                r = cmb_dataset_add(dss[d], y);
+            }
+            fprintf(trace, "R %ld ds.add %" PRIu64 "\n", idx, r);
+        }
+        else if (strcmp(c, "ts.add") == 0 && nt == 5) {
+            const int d = slot(tok[1], NTS);
+            const int64_t xi = cimx_i64(tok[2]), ti = cimx_i64(tok[3]), n = cimx_i64(tok[4]);
+            if (d < 0 || !range_ok(xi, n) || !range_ok(ti, n)) return bad(trace, "ts.add", c);
+            uint64_t r = cmb_timeseries_count(tss[d]);
+            for (int64_t j = 0; j < n; j++) {
+                /* documented use: time stamps do not decrease */
+                if (r > 0 && !(tss[d]->ta[r - 1] <= pool[ti + j])) return bad(trace, "ts.add time order", c);
+                r = cmb_timeseries_add(tss[d], pool[xi + j], pool[ti + j]);
+            }
+            fprintf(trace, "R %ld ts.add %" PRIu64 "\n", idx, r);
+        }
+        else if (strcmp(c, "ts.fin") == 0 && nt == 3) {
+            const int d = slot(tok[1], NTS);
+            if (d < 0) return bad(trace, "ts.fin", c);
+            const double t = cimx_dbl(tok[2]);
+            const uint64_t n = cmb_timeseries_count(tss[d]);
+            if (n == 0 || !(tss[d]->ta[n - 1] <= t)) {
+                fprintf(trace, "S %ld finalize needs a last sample not later than t\n", idx);
+            }
+            else {
+                const uint64_t r = cmb_timeseries_finalize(tss[d], t);
+                fprintf(trace, "R %ld ts.fin %" PRIu64 "\n", idx, r);
+            }
+        }
+        else if ((strcmp(c, "ds.reset") == 0 || strcmp(c, "ts.reset") == 0) && nt == 2) {
+            const int ist = (c[0] == 't');
+            const int d = slot(tok[1], ist ? NTS : NDS);
+            if (d < 0) return bad(trace, "reset", c);
+            if (ist) cmb_timeseries_reset(tss[d]); else cmb_dataset_reset(dss[d]);
+            fprintf(trace, "R %ld %s\n", idx, c);
+        }
+        /* ---- sort / copy / dump ---- */
+        else if (strcmp(c, "ds.sort") == 0 && nt == 2) {
+            const int d = slot(tok[1], NDS);
+            if (d < 0) return bad(trace, "ds.sort", c);
+            cmb_dataset_sort(dss[d]);
+            fprintf(trace, "R %ld ds.sort\n", idx);
+        }
+        else if ((strcmp(c, "ts.sortx") == 0 || strcmp(c, "ts.sortt") == 0) && nt == 2) {
+            const int d = slot(tok[1], NTS);
+            if (d < 0) return bad(trace, "ts.sort", c);
+            if (c[7] == 'x') cmb_timeseries_sort_x(tss[d]); else cmb_timeseries_sort_t(tss[d]);
+            fprintf(trace, "R %ld %s\n", idx, c);
+        }
+        else if (strcmp(c, "ds.copy") == 0 && nt == 3) {
+            const int t = slot(tok[1], NDS), s = slot(tok[2], NDS);
+            if (t < 0 || s < 0 || t == s) return bad(trace, "ds.copy", c);
+            const uint64_t r = cmb_dataset_copy(dss[t], dss[s]);
+            fprintf(trace, "R %ld ds.copy %" PRIu64 "\n", idx, r);
+        }
+        else if (strcmp(c, "ts.copy") == 0 && nt == 3) {
+            const int t = slot(tok[1], NTS), s = slot(tok[2], NTS);
+            if (t < 0 || s < 0 || t == s) return bad(trace, "ts.copy", c);
+            const uint64_t r = cmb_timeseries_copy(tss[t], tss[s]);
+            fprintf(trace, "R %ld ts.copy %" PRIu64 "\n", idx, r);
+        }
+        else if (strcmp(c, "ds.dump") == 0 && nt == 2) {
+            const int d = slot(tok[1], NDS);
+            if (d < 0) return bad(trace, "ds.dump", c);
+            const struct cmb_dataset *p = dss[d];
+            fprintf(trace, "R %ld ds.dump %" PRIu64 " %a %a %" PRIu64 "\n", idx,
+                    cmb_dataset_count(p), cmb_dataset_min(p), cmb_dataset_max(p), p->cursize);
+            put_array(trace, idx, 'x', p->count, p->xa);
+        }
+        else if (strcmp(c, "ts.dump") == 0 && nt == 2) {
+            const int d = slot(tok[1], NTS);
+            if (d < 0) return bad(trace, "ts.dump", c);
+            const struct cmb_timeseries *p = tss[d];
+            fprintf(trace, "R %ld ts.dump %" PRIu64 " %a %a %" PRIu64 "\n", idx,
+                    cmb_timeseries_count(p), cmb_timeseries_min(p), cmb_timeseries_max(p),
+                    p->ds.cursize);
+            put_array(trace, idx, 'x', p->ds.count, p->ds.xa);
+            put_array(trace, idx, 't', p->ds.count, p->ta);
+            put_array(trace, idx, 'w', p->ds.count, p->wa);
+        }
+        /* ---- medians and five-number summaries ---- */
+        else if ((strcmp(c, "ds.median") == 0 || strcmp(c, "ts.dsmedian") == 0) && nt == 2) {
+            const int ist = (c[0] == 't');
+            const int d = slot(tok[1], ist ? NTS : NDS);
+            if (d < 0) return bad(trace, "median", c);
+            const struct cmb_dataset *p = ist ? (struct cmb_dataset *)tss[d] : dss[d];
+            if (p->count == 0) fprintf(trace, "S %ld empty\n", idx);
+            else fprintf(trace, "R %ld %s %a\n", idx, c, cmb_dataset_median(p));
+        }
+        else if (strcmp(c, "ts.median") == 0 && nt == 2) {
+            const int d = slot(tok[1], NTS);
+            if (d < 0) return bad(trace, "ts.median", c);
+            if (tss[d]->ds.count == 0) fprintf(trace, "S %ld empty\n", idx);
+            else fprintf(trace, "R %ld ts.median %a\n", idx, cmb_timeseries_median(tss[d]));
+        }
+        else if ((strcmp(c, "ds.fivenum") == 0 || strcmp(c, "ts.dsfivenum") == 0
+                  || strcmp(c, "ts.fivenum") == 0) && nt == 3) {
+            const int ist = (c[0] == 't');
+            const int d = slot(tok[1], ist ? NTS : NDS);
+            if (d < 0) return bad(trace, "fivenum", c);
+            const struct cmb_dataset *p = ist ? (struct cmb_dataset *)tss[d] : dss[d];
+            if (p->count == 0) { fprintf(trace, "S %ld empty\n", idx); continue; }
+            char *buf = NULL; size_t len = 0;
+            FILE *ms = open_memstream(&buf, &len);
+            if (strcmp(c, "ts.fivenum") == 0) cmb_timeseries_fivenum_print(tss[d], ms, cimx_i64(tok[2]) != 0);
+            else cmb_dataset_fivenum_print(p, ms, cimx_i64(tok[2]) != 0);
+            fclose(ms);
+            fprintf(trace, "R %ld %s\n", idx, c);
+            put_text(trace, idx, buf, len);
+            free(buf);
+        }
+        /* ---- histograms ---- */
+        else if ((strcmp(c, "ds.hist") == 0 || strcmp(c, "ts.dshist") == 0
+                  || strcmp(c, "ts.hist") == 0) && nt == 5) {
+            const int ist = (c[0] == 't');
+            const int d = slot(tok[1], ist ? NTS : NDS);
+            const int64_t nb = cimx_i64(tok[2]);
+            const double lo = cimx_dbl(tok[3]), hi = cimx_dbl(tok[4]);
+            if (d < 0) return bad(trace, "hist", c);
+            const struct cmb_dataset *p = ist ? (struct cmb_dataset *)tss[d] : dss[d];
+            const int wtd = (strcmp(c, "ts.hist") == 0);
+            if (p->count == 0 || nb <= 0 || !(hi >= lo) || (wtd && nb > 65535) || nb > 4000000) {
+                fprintf(trace, "S %ld precondition\n", idx);
+                continue;
+            }
+            char *buf = NULL; size_t len = 0;
+            FILE *ms = open_memstream(&buf, &len);
+            if (wtd) cmb_timeseries_histogram_print(tss[d], ms, (uint16_t)nb, lo, hi);
+            else cmb_dataset_histogram_print(p, ms, (unsigned)nb, lo, hi);
+            fclose(ms);
+            fprintf(trace, "R %ld %s\n", idx, c);
+            put_text(trace, idx, buf, len);
+            free(buf);
+        }
+        else if (strcmp(c, "ds.hfill") == 0 && nt == 5) {
+            const int d = slot(tok[1], NDS);
+            const int64_t nb = cimx_i64(tok[2]);
+            const double lo = cimx_dbl(tok[3]), hi = cimx_dbl(tok[4]);
+            if (d < 0) return bad(trace, "ds.hfill", c);
+            const struct cmb_dataset *p = dss[d];
+            if (p->count == 0 || nb <= 0 || nb > 60000 || !(hi > lo)) {
+                fprintf(trace, "S %ld precondition\n", idx);
+                continue;
+            }
+            struct cmi_dataset_histogram *hp = cmi_dataset_histogram_create((unsigned)nb, lo, hi);
+            cmi_dataset_histogram_fill(hp, p->count, p->xa);
+            fprintf(trace, "R %ld ds.hfill %u %a %a\n", idx, hp->num_bins, hp->binsize, hp->binmax);
+            put_array(trace, idx, 'h', hp->num_bins, hp->hbins);
+            char *buf = NULL; size_t len = 0;
+            FILE *ms = open_memstream(&buf, &len);
+            cmi_dataset_histogram_print(hp, ms);
+            fclose(ms);
+            put_text(trace, idx, buf, len);
+            free(buf);
+            cmi_dataset_histogram_destroy(hp);
+        }
+        /* ---- summaries of collected data ---- */
+        else if (strcmp(c, "ds.summ") == 0 && nt == 3) {
+            const int d = slot(tok[1], NDS), s = slot(tok[2], NSUM);
+            if (d < 0 || s < 0) return bad(trace, "ds.summ", c);
+            const uint64_t r = cmb_dataset_summarize(dss[d], &sums[s]);
+            fprintf(trace, "R %ld ds.summ %" PRIu64 "\n", idx, r);
+        }
+        else if (strcmp(c, "ts.summ") == 0 && nt == 3) {
+            const int d = slot(tok[1], NTS), s = slot(tok[2], NWS);
+            if (d < 0 || s < 0) return bad(trace, "ts.summ", c);
+            if (tss[d]->ds.count == 0) { fprintf(trace, "S %ld empty\n", idx); continue; }
+            const uint64_t r = cmb_timeseries_summarize(tss[d], &wss[s]);
+            fprintf(trace, "R %ld ts.summ %" PRIu64 "\n", idx, r);
+        }
+        /* ---- correlograms ---- */
+        else if ((strcmp(c, "ds.acf") == 0 || strcmp(c, "ts.acf") == 0) && nt == 3) {
+            const int ist = (c[0] == 't');
+            const int d = slot(tok[1], ist ? NTS : NDS);
+            const int64_t n = cimx_i64(tok[2]);
+            if (d < 0) return bad(trace, "acf", c);
+            const uint64_t cnt = ist ? cmb_timeseries_count(tss[d]) : cmb_dataset_count(dss[d]);
+            if (cnt < 2 || n < 1 || (uint64_t)n >= cnt || n > 65535) {
+                fprintf(trace, "S %ld precondition\n", idx);
+                continue;
+            }
+            double *acf = malloc(((size_t)n + 1) * sizeof *acf);
+            for (int64_t j = 0; j <= n; j++) acf[j] = -77.0;
+            if (ist) cmb_timeseries_ACF(tss[d], (uint16_t)n, acf);
+            else cmb_dataset_ACF(dss[d], (unsigned)n, acf);
+            fprintf(trace, "R %ld %s %" PRId64 "\n", idx, c, n);
+            put_array(trace, idx, 'a', (uint64_t)n + 1, acf);
+            free(acf);
+        }
+        else if ((strcmp(c, "ds.pacf") == 0 || strcmp(c, "ts.pacf") == 0) && nt == 4) {
+            const int ist = (c[0] == 't');
+            const int d = slot(tok[1], ist ? NTS : NDS);
+            const int64_t n = cimx_i64(tok[2]);
+            const int given = (int)cimx_i64(tok[3]);
+            if (d < 0) return bad(trace, "pacf", c);
+            const uint64_t cnt = ist ? cmb_timeseries_count(tss[d]) : cmb_dataset_count(dss[d]);
+            if (cnt < 3 || n < 1 || (uint64_t)n >= cnt - 1 || n > 2000) {
+                fprintf(trace, "S %ld precondition\n", idx);
+                continue;
+            }
+            double *acf = malloc(((size_t)n + 1) * sizeof *acf);
+            double *pacf = malloc(((size_t)n + 1) * sizeof *pacf);
+            for (int64_t j = 0; j <= n; j++) { acf[j] = -77.0; pacf[j] = -77.0; }
+            if (ist) {
+                cmb_timeseries_ACF(tss[d], (uint16_t)n, acf);
+                cmb_timeseries_PACF(tss[d], (uint16_t)n, pacf, given ? acf : NULL);
+            }
+            else {
+                cmb_dataset_ACF(dss[d], (unsigned)n, acf);
+                cmb_dataset_PACF(dss[d], (unsigned)n, pacf, given ? acf : NULL);
+            }
+            fprintf(trace, "R %ld %s %" PRId64 "\n", idx, c, n);
+            put_array(trace, idx, 'a', (uint64_t)n + 1, acf);
+            put_array(trace, idx, 'p', (uint64_t)n + 1, pacf);
+            free(acf);
+            free(pacf);
+        }
+        else {
+            return bad(trace, "unknown command or wrong argument count", c);
+        }
+    }
+
+    for (int i = 0; i < NDS; i++) cmb_dataset_destroy(dss[i]);
+    for (int i = 0; i < NTS; i++) cmb_timeseries_destroy(tss[i]);
+    free(pool);
+    fprintf(trace, "N cmds=%ld pool=%zu\n", idx + 1, npool);
+    return CIMX_OK;
+}
